@@ -36,6 +36,41 @@ def pspec_of(mod_node: ast.expr, attr_node: ast.expr) -> Tuple[str, str, bool]:
     return (dotted(mod_node), attr_node.value, False)
 
 
+COPY_CALLS = ("list", "tuple", "dict", "set", "copy.copy", "copy.deepcopy")
+
+
+def newkind_of(mod_node: ast.expr, attr_node: ast.expr, val_node: ast.expr) -> str:
+    """Third argument of a triple: does it evaluate to a NEW object (NFresh), to a copy of what the
+    attribute holds (NCopy: list(sys.argv), sys.argv[:], copy.copy(sys.argv)) or to the very object the
+    attribute holds (NSame)?  Any other mention of the patched attribute is not understood."""
+    m, a, byname = pspec_of(mod_node, attr_node)
+    target = m + "." + a
+    if byname:
+        return "NFresh" if target not in ast.unparse(val_node) else _unknown_new(val_node)
+    if isinstance(val_node, (ast.Attribute, ast.Name)) and ast.unparse(val_node) == target:
+        return "NSame"
+    mentions = any(isinstance(n, ast.Attribute) and ast.unparse(n) == target for n in ast.walk(val_node))
+    if not mentions:
+        return "NFresh"
+    if isinstance(val_node, ast.Call) and not val_node.keywords and len(val_node.args) == 1 \
+            and ast.unparse(val_node.args[0]) == target and call_name(val_node) in COPY_CALLS:
+        return "NCopy"
+    if isinstance(val_node, ast.Subscript) and ast.unparse(val_node.value) == target \
+            and isinstance(val_node.slice, ast.Slice) and val_node.slice.lower is None \
+            and val_node.slice.upper is None and val_node.slice.step is None:
+        return "NCopy"
+    return _unknown_new(val_node)
+
+
+def _unknown_new(val_node: ast.expr) -> str:
+    raise TranslateError("new value of a patch refers to the patched attribute in a way the reader does not know: "
+                         + ast.unparse(val_node)[:120])
+
+
+def newkinds(call: ast.Call) -> List[str]:
+    return [newkind_of(call.args[i], call.args[i + 1], call.args[i + 2]) for i in range(0, len(call.args), 3)]
+
+
 def triples(call: ast.Call) -> List[Tuple[str, str, bool]]:
     if call.keywords or any(isinstance(a, ast.Starred) for a in call.args):
         raise TranslateError("patch(...) with keyword or starred arguments")
@@ -145,6 +180,7 @@ def read_source() -> Dict[str, object]:
     # ---- _fetch_from_setup_py: outer patch
     f = T.func(mod, "_fetch_from_setup_py")
     out["outer"] = triples(find_patch_assign(f, "patches"))
+    out["outer_new"] = newkinds(find_patch_assign(f, "patches"))
     w = find_with(f, "patches")
     out["outer_with_covers_parse"] = contains_call(w.body, lambda c: call_name(c) == "_parse_setup_py")
     # no call to _parse_setup_py outside that with
@@ -155,6 +191,7 @@ def read_source() -> Dict[str, object]:
     g = T.func(mod, "_parse_setup_py")
     begins: List[Tuple[Tuple[str, str, bool], bool]] = []
     tokvars: Dict[str, Tuple[str, str, bool]] = {}
+    begin_new: List[str] = []
 
     def scan_begin(stmts, guarded: bool) -> None:
         for s in stmts:
@@ -165,6 +202,7 @@ def read_source() -> Dict[str, object]:
                     if len(val.args) != 3 or val.keywords or not isinstance(tgt, ast.Name):
                         raise TranslateError("begin_patch call with an unrecognised shape")
                     ps = pspec_of(val.args[0], val.args[1])
+                    begin_new.append(newkind_of(val.args[0], val.args[1], val.args[2]))
                     if tgt.id in tokvars:
                         raise TranslateError("token variable assigned twice: " + tgt.id)
                     tokvars[tgt.id] = ps
@@ -177,7 +215,9 @@ def read_source() -> Dict[str, object]:
     if n_begin != len(begins):
         raise TranslateError("a begin_patch call sits somewhere the reader does not understand")
     out["begins"] = begins
+    out["begins_new"] = begin_new
     out["inner"] = triples(find_patch_assign(g, "patches"))
+    out["inner_new"] = newkinds(find_patch_assign(g, "patches"))
     w2 = find_with(g, "patches")
     if len(w2.body) < 1 or not isinstance(w2.body[0], ast.Try):
         raise TranslateError("`with patches:` in _parse_setup_py does not start with a try statement")
@@ -256,7 +296,8 @@ def read_pyproject() -> Dict[str, object]:
     if len(withs) != 1:
         raise TranslateError("expected exactly one `with patch(...)` in _parse_from_prepared_metadata")
     w = withs[0]
-    out: Dict[str, object] = {"pyproject": triples(w.items[0].context_expr)}
+    out: Dict[str, object] = {"pyproject": triples(w.items[0].context_expr),
+                              "pyproject_new": newkinds(w.items[0].context_expr)}
     # the try whose body contains os.chdir(source_file) and this with, and whose finally chdirs back
     ok = False
     for n in own_nodes(f):
@@ -342,8 +383,8 @@ def b(x: object) -> str:
     return "true" if x else "false"
 
 
-def pspec(p: Tuple[str, str, bool]) -> str:
-    return f"mkP {T.coq_str(p[0])} {T.coq_str(p[1])} {b(p[2])}"
+def pspec(p: Tuple[str, str, bool], kind: str = "NFresh") -> str:
+    return f"mkP {T.coq_str(p[0])} {T.coq_str(p[1])} {b(p[2])} {kind}"
 
 
 def all_calls_accounted() -> None:
@@ -371,12 +412,13 @@ def gen_c13_consts() -> str:
     all_calls_accounted()
     body = "(* GENERATED by harness/tr_c13.py from /repo on every run -- do not edit *)\n"
     body += "From Coq Require Import List String Bool.\nImport ListNotations.\nOpen Scope string_scope.\n"
-    body += "Record pspec := mkP { p_mod : string; p_attr : string; p_byname : bool }.\n"
+    body += "(* what the third argument of a triple evaluates to *)\nInductive newkind := NFresh | NCopy | NSame.\n"
+    body += "Record pspec := mkP { p_mod : string; p_attr : string; p_byname : bool; p_new : newkind }.\n"
     body += "Inductive fstep := FCython | FPathRemove | FEndPatch (k : string * string) | FMetaRemove | FPurgeModules.\n"
-    body += "Definition outer_patched : list pspec :=\n  " + T.coq_list([pspec(x) for x in s["outer"]]) + ".\n"
-    body += "Definition begin_patched : list (pspec * bool) :=\n  " + T.coq_list([f"({pspec(x)}, {b(g)})" for x, g in s["begins"]]) + ".\n"
-    body += "Definition inner_patched : list pspec :=\n  " + T.coq_list([pspec(x) for x in s["inner"]]).replace("; ", ";\n   ") + ".\n"
-    body += "Definition pyproject_patched : list pspec :=\n  " + T.coq_list([pspec(x) for x in p["pyproject"]]) + ".\n"
+    body += "Definition outer_patched : list pspec :=\n  " + T.coq_list([pspec(x, k) for x, k in zip(s["outer"], s["outer_new"])]) + ".\n"
+    body += "Definition begin_patched : list (pspec * bool) :=\n  " + T.coq_list([f"({pspec(x, k)}, {b(g)})" for (x, g), k in zip(s["begins"], s["begins_new"])]) + ".\n"
+    body += "Definition inner_patched : list pspec :=\n  " + T.coq_list([pspec(x, k) for x, k in zip(s["inner"], s["inner_new"])]).replace("; ", ";\n   ") + ".\n"
+    body += "Definition pyproject_patched : list pspec :=\n  " + T.coq_list([pspec(x, k) for x, k in zip(p["pyproject"], p["pyproject_new"])]) + ".\n"
     body += "Definition finally_steps : list (fstep * bool) :=\n  " + T.coq_list([f"({t}, {b(f)})" for t, f in s["steps"]]) + ".\n"
     body += "Definition numpy_fakes : list string := " + T.coq_list([T.coq_str(x) for x in s["numpy_fakes"]]) + ".\n"
     body += "Definition cython_fakes : list string := " + T.coq_list([T.coq_str(x) for x in s["cython_fakes"]]) + ".\n"
